@@ -66,3 +66,10 @@ static void ref_init_all(REF_TP_T *tp)
     ref_init_task_G.taskpool = (parsec_taskpool_t *)tp; grid_G_internal_init(NULL, &ref_init_task_G);
     ref_init_task_H.taskpool = (parsec_taskpool_t *)tp; grid_H_internal_init(NULL, &ref_init_task_H);
 }
+
+/* make_key of class c: direct calls (no function pointer read from a table indexed symbolically) */
+static parsec_key_t ref_make_key(const REF_TP_T *tp, int c, const parsec_assignment_t *l)
+{
+    if (c == 0) return __jdf2c_make_key_G((const parsec_taskpool_t *)tp, l);
+    (void)c; return __jdf2c_make_key_H((const parsec_taskpool_t *)tp, l);
+}
